@@ -24,6 +24,9 @@ pub struct Job {
     pub schema_path: String,
     pub query: QuerySrc,
     pub opts: Opts,
+    /// working directory for the call (relative paths); None = unchanged
+    #[serde(default)]
+    pub cwd: Option<String>,
 }
 
 #[derive(Clone, Debug, Serialize, Deserialize, PartialEq)]
@@ -91,6 +94,9 @@ pub fn install_silent_panic_hook() {
 /// Run one codegen call in this process (used by workers and by in-process properties that do
 /// not need isolation).
 pub fn run_job_here(job: &Job) -> Outcome {
+    if let Some(d) = &job.cwd {
+        let _ = std::env::set_current_dir(d);
+    }
     IN_JOB.with(|j| j.set(true));
     let res = std::panic::catch_unwind(std::panic::AssertUnwindSafe(|| {
         let opts = job.opts.to_codegen();
